@@ -13,6 +13,9 @@ LIVE.writer          : active-object callbacks only enqueue (fn, content) to the
 """
 import ast
 
+from sa.boolflow import must_atoms
+from sa.util import expand_locals
+
 from sa.model import AnalysisError, walk_shallow, dotted, norm
 from sa.util import cfg_of, shallow_calls, guarded_by_edge, local_defs, compare_parts, is_none
 from sa.context import callgraph
@@ -133,13 +136,10 @@ def check(run, model, tier):
     run.inst('LIVE.newness', inner, 'looks at the most recent trace record [-1]', idx_ok, 'the record considered is not full.trace[-1]', obligation=True)
     for n in cbn:
         ident = None
-        for t in g.nodes:
-            if t.kind != 'test' or not guarded_by_edge(g, n, t, 'true'):
-                continue
-            cp = compare_parts(t.ast)
-            if cp and cp[1] is ast.IsNot and ((isinstance(cp[0], ast.Name) and cp[0].id == trv and (dotted(cp[2]) or '').startswith(recv + '.')) or
-                                              (isinstance(cp[2], ast.Name) and cp[2].id == trv and (dotted(cp[0]) or '').startswith(recv + '.'))):
-                ident = (t, dotted(cp[2]) if isinstance(cp[0], ast.Name) else dotted(cp[0]))
+        for (l_, op_, r_) in must_atoms(g, n, inner.node, params=inner.params):
+            if op_ == 'IsNot' and l_ in (trv, norm(expand_locals(ast.Name(id=trv, ctx=ast.Load()), inner.node, params=inner.params))) and r_.startswith(recv + '.') \
+                    and not r_.startswith(recv + '.full.trace'):
+                ident = (None, r_)
         ok = ident is not None
         run.inst('LIVE.newness', inner, 'newness decided by identity with the remembered record', ok,
                  '' if ok else 'the emission of a new trace record is not decided by `record is not <remembered record>`', node=n.ast, obligation=True)
